@@ -110,7 +110,46 @@ func execFpRT(in KV) string {
 	state1 := helloState(uc1)
 	flags := in["flags"]
 	fp := &tls.Fingerprinter{AllowBluntMimicry: strings.Contains(flags, "b"), AlwaysAddPadding: strings.Contains(flags, "p"), RealPSKResumption: strings.Contains(flags, "r")}
-	spec1, err := fp.FingerprintClientHello(recordOf(raw1))
+	var spec1 *tls.ClientHelloSpec
+	if rb, ok := in["reuse"]; ok {
+		// one ClientHelloSpec value used as the receiver of FromRaw for several hellos (what a caller that
+		// fingerprints many captures does); a result kept BY VALUE must stay what it was when later calls
+		// reuse the receiver. mode 1: FromRaw(A); keep a copy; FromRaw(B)[; FromRaw(A)]; apply the copy.
+		// mode 0: FromRaw(B); FromRaw(A); apply the receiver itself.
+		parts := strings.SplitN(rb, ":", 2)
+		idB, okB := chIDByName(parts[0], rseed+7)
+		var rawB []byte
+		if okB {
+			if ucB, errB := buildWith(idB, nil, s); errB == nil {
+				rawB = ucB.HandshakeState.Hello.Raw
+			}
+		}
+		if rawB == nil {
+			rawB = raw1
+		}
+		var sp tls.ClientHelloSpec
+		if parts[1] == "0" {
+			sp.FromRaw(recordOf(rawB), fp.AllowBluntMimicry, fp.RealPSKResumption)
+			err = sp.FromRaw(recordOf(raw1), fp.AllowBluntMimicry, fp.RealPSKResumption)
+			if err == nil && fp.AlwaysAddPadding {
+				sp.AlwaysAddPadding()
+			}
+			spec1 = &sp
+		} else {
+			err = sp.FromRaw(recordOf(raw1), fp.AllowBluntMimicry, fp.RealPSKResumption)
+			if err == nil && fp.AlwaysAddPadding {
+				sp.AlwaysAddPadding()
+			}
+			kept := sp
+			sp.FromRaw(recordOf(rawB), fp.AllowBluntMimicry, fp.RealPSKResumption)
+			if parts[1] == "2" {
+				sp.FromRaw(recordOf(raw1), fp.AllowBluntMimicry, fp.RealPSKResumption)
+			}
+			spec1 = &kept
+		}
+	} else {
+		spec1, err = fp.FingerprintClientHello(recordOf(raw1))
+	}
 	if err != nil {
 		return state1 + " raw1=" + hx(raw1) + " fperr=" + sanitize(err.Error())
 	}
@@ -253,6 +292,9 @@ func genFpRT(r *Rng, i int, tier string) string {
 	}
 	if r.Intn(8) == 0 {
 		t += fmt.Sprintf(" capgrease=%d", Pick(r, []int{0, 1, 2, 4, 32, 256}))
+	}
+	if r.Intn(5) == 0 {
+		t += fmt.Sprintf(" reuse=%s:%d", chIDNames[r.Intn(len(parrotIDs))], r.Intn(3))
 	}
 	if pskIDs[id] && r.Bool() {
 		t += fmt.Sprintf(" fakepsk=%d", Pick(r, []int{1, 16, 100}))
